@@ -569,21 +569,66 @@ def describe_shared(d):
     return "tunable(%s)" % args
 
 
-def class_source(decls, name, split, src, tkind=None, hier=None, mkobj=None):
+# ---- components that are magicbot StateMachines -----------------------------------
+#   sm = {"states": [{"name": n, "first": bool, "dur": None | scalar pv, "doc": None | str}..]}
+#   class C(StateMachine) with one @state / @timed_state method per entry.  The library itself
+#   gives such a class more tunables (all in the subtable "state"): StateMachine.current_state,
+#   <name>_duration per timed state (writeDefault=False; set on the class by the state's
+#   __set_name__), and state_names / state_descriptions, which EVERY instance construction
+#   assigns anew on the class (cls.state_names = tunable(..)).
+SM_HEADER = "from magicbot.state_machine import StateMachine, state, timed_state\n"
+
+
+def sm_decls(sm):
+    """the tunables the library adds to such a class (marked "sm"; not written in the class body)."""
+    def mk(attr, kind, default, wd, how):
+        return {"attr": attr, "kind": kind, "default": default, "hint": None, "form": 0, "flavor": 0, "q": 0,
+                "subtable": "state", "wd": wd, "sm": how}
+    out = [mk("current_state", ["str", False], ["str", ""], None, "base")]
+    for st in sm["states"]:
+        if st.get("dur") is not None:
+            out.append(mk(st["name"] + "_duration", [st["dur"][0], False], st["dur"], False, "dur"))
+    out.append(mk("state_names", ["str", True], ["list", [["str", st["name"]] for st in sm["states"]]], None, "names"))
+    out.append(mk("state_descriptions", ["str", True], ["list", [["str", st.get("doc") or ""] for st in sm["states"]]], None, "names"))
+    return out
+
+
+def sm_source(sm, env, nvar):
+    lines = []
+    for st in sm["states"]:
+        if st.get("dur") is not None:
+            var = "_d%d" % nvar[0]
+            nvar[0] += 1
+            env[var] = to_py(st["dur"])
+            lines.append("    @timed_state(duration=%s%s)" % (var, ", first=True" if st.get("first") else ""))
+        else:
+            lines.append("    @state(first=True)" if st.get("first") else "    @state")
+        lines.append("    def %s(self):" % st["name"])
+        lines.append("        %s" % (repr(st["doc"]) if st.get("doc") else "pass"))
+    return lines
+
+
+def class_source(decls, name, split, src, tkind=None, hier=None, mkobj=None, sm=None):
     """(source text, {default variable: object}) of the module defining class `name`.
-    mkobj(d): the shared tunable object of a declaration with "obj" (None: only for printing)."""
+    mkobj(d): the shared tunable object of a declaration with "obj" (None: only for printing).
+    sm: the class is a magicbot StateMachine with these states (see sm_decls)."""
     env = {}
     lines = []
     nvar = [0]
+    decls = [d for d in decls if "sm" not in d]
 
     def body(cname, bases, ds, root):
         if root and tkind == "list":
             bases = ["list"] + bases
+        if root and sm is not None:
+            bases = ["StateMachine"] + bases
         lines.append("class %s%s:" % (cname, "(%s)" % ", ".join(bases) if bases else ""))
         if root and tkind in TRUTH_SRC:
             lines.extend(TRUTH_SRC[tkind])
-        elif not ds:
+        elif not ds and not (root and sm is not None):
             lines.append("    pass")
+        if root and sm is not None:
+            lines.extend(sm_source(sm, env, nvar))
         for d in ds:
             var = "_d%d" % nvar[0]
             nvar[0] += 1
@@ -630,19 +675,19 @@ def class_source(decls, name, split, src, tkind=None, hier=None, mkobj=None):
         body(name, [name + "Base"], decls[split:], False)
     else:
         body(name, [], decls, True)
-    head = ("from __future__ import annotations\n" if src == 2 else "") + SRC_HEADER
+    head = ("from __future__ import annotations\n" if src == 2 else "") + SRC_HEADER + (SM_HEADER if sm is not None else "")
     return head + "\n" + "\n".join(lines), env
 
 
 _MODN = [0]
 
 
-def make_class_src(mt, decls, name, split, src, tkind=None, hier=None, pool=None):
+def make_class_src(mt, decls, name, split, src, tkind=None, hier=None, pool=None, sm=None):
     """the class statement as it stands in a user's module (typing.get_type_hints resolves string
     annotations in sys.modules[cls.__module__].__dict__: the module is registered while it runs)."""
     import types
     pool = {} if pool is None else pool
-    text, env = class_source(decls, name, split, src, tkind, hier, mkobj=lambda d: shared_object(mt, pool, d))
+    text, env = class_source(decls, name, split, src, tkind, hier, mkobj=lambda d: shared_object(mt, pool, d), sm=sm)
     _MODN[0] += 1
     modname = "c09gen_%d" % _MODN[0]
     mod = types.ModuleType(modname)
@@ -656,7 +701,7 @@ def make_class_src(mt, decls, name, split, src, tkind=None, hier=None, pool=None
     return mod.__dict__[name]
 
 
-def make_class(mt, decls, name="Gen", split=0, src=0, tkind=None, hier=None, pool=None):
+def make_class(mt, decls, name="Gen", split=0, src=0, tkind=None, hier=None, pool=None, sm=None):
     """a class with the tunables `decls` (dict: attr default hint form flavor q subtable wd [obj]);
     the first `split` of them live on a base class (dir(cls) must find them); tkind: how bool()
     of an instance is computed (see TRUTH_SRC); hier: the class is a hierarchy with redefinitions
@@ -664,9 +709,12 @@ def make_class(mt, decls, name="Gen", split=0, src=0, tkind=None, hier=None, poo
     objects of the history (declarations with the same "obj" bind ONE object, see shared_object)."""
     import typing
     pool = {} if pool is None else pool
+    decls = [d for d in decls if "sm" not in d]
     src = eff_src(hier_tunables(hier) if hier is not None else decls, src)
+    if sm is not None:
+        src = max(1, src)                            # the states are methods: written as source text
     if src:
-        return make_class_src(mt, decls, name, split, src, tkind, hier, pool)
+        return make_class_src(mt, decls, name, split, src, tkind, hier, pool, sm)
 
     def ns_of(ds):
         ns, ann = {}, {}
@@ -769,23 +817,69 @@ def nt_read(key):
         return [ts, ["other"]]
 
 
+# ---- the NT clock ---------------------------------------------------------------
+# ntcore stamps every value with its clock: the wall clock, or -- once the HAL is initialised, as in
+# every robot program, simulation and pyfrc test -- the HAL clock, which can be PAUSED and stepped
+# (hal.simulation.pauseTiming / stepTiming): everything between two steps then carries one and the
+# same timestamp.  The HAL clock starts near zero, i.e. far behind the wall clock, and ntcore drops a
+# value that is stamped older than the one a topic holds: the HAL is initialised before the first
+# NetworkTables value of the process is written.
+_HAL = [False]
+
+
+def init_clock():
+    if not _HAL[0]:
+        import hal
+        hal.initialize(500, 0)
+        _HAL[0] = True
+
+
+def nt_now():
+    import ntcore
+    return ntcore._now()
+
+
+def nt_stamp(key):
+    """the timestamp of the value the topic holds, as an independent subscriber sees it (0: the topic
+    has no value, or only a default)."""
+    t = nt_inst().getTopic(key)
+    if not t.exists():
+        return 0
+    v = t.genericSubscribe().get()
+    return int(v.time()) if v.isValid() else 0
+
+
 class NtWriter:
     """independent publishers on the same NT instance, kept alive by the caller."""
 
     def __init__(self):
         self.pubs = {}
 
-    def write(self, key, ts, pv):
+    def write(self, key, ts, pv, sel=None):
+        """sel: how the client stamps the update -- None: it leaves that to ntcore; "now": its own
+        reading of the NT clock; "same": the timestamp of the value the topic holds right now (two
+        updates for one camera frame, a value re-sent with its original time); "older": one
+        microsecond before that (a stale update: ntcore drops it).  Returns False when there is no
+        older timestamp to use (nothing is sent then)."""
         import ntcore
         inst = nt_inst()
         base, arr = TS_KIND[ts]
         k = (key, ts)
+        t = 0
+        if sel == "now":
+            t = nt_now()
+        elif sel in ("same", "older"):
+            t = nt_stamp(key)
+            if sel == "older":
+                if t <= 1:
+                    return False
+                t -= 1
         if base in ("T2", "T3"):
             cls = struct_cls(STRUCT_NAME[base])
             if k not in self.pubs:
                 self.pubs[k] = (inst.getStructArrayTopic(key, cls) if arr else inst.getStructTopic(key, cls)).publish()
-            self.pubs[k].set(to_py(canon(pv)))
-            return
+            self.pubs[k].set(to_py(canon(pv)), t)
+            return True
         if k not in self.pubs:
             self.pubs[k] = inst.getTopic(key).genericPublish(ts)
         V = ntcore.Value
@@ -793,7 +887,8 @@ class NtWriter:
               ("str", False): V.makeString, ("bytes", False): V.makeRaw,
               ("bool", True): V.makeBooleanArray, ("int", True): V.makeIntegerArray,
               ("float", True): V.makeDoubleArray, ("str", True): V.makeStringArray}[(base, arr)]
-        self.pubs[k].set(mk(to_py(canon(pv))))
+        self.pubs[k].set(mk(to_py(canon(pv)), t))
+        return True
 
 
 # ---- the grid ---------------------------------------------------------------
@@ -1241,14 +1336,102 @@ def case_hier(case, k):
     return (case.get("hier") or [None] * len(case["classes"]))[k]
 
 
+def case_sm(case, k):
+    """the states of class k when it is a magicbot StateMachine (else None)."""
+    return (case.get("sm") or [None] * len(case["classes"]))[k]
+
+
 def case_all_decls(case, k):
     """every tunable declaration WRITTEN for class k."""
     h = case_hier(case, k)
-    return hier_tunables(h) if h is not None else case["classes"][k]
+    return hier_tunables(h) if h is not None else [d for d in case["classes"][k] if "sm" not in d]
 
 
 def case_eff_src(case, k):
-    return eff_src(case_all_decls(case, k), case_src(case, k))
+    es = eff_src(case_all_decls(case, k), case_src(case, k))
+    return max(1, es) if case_sm(case, k) is not None else es
+
+
+# ---- the ENVIRONMENT of a history (Model section 13) --------------------------------
+#   case["clock"] = "paused": the history runs under the paused HAL clock; ["tick", us] steps it
+#       (absent: the clock runs; every operation gets a later timestamp than the one before)
+#   ["ntw", key, ts, pv, sel]  a client update that carries a timestamp of the client's own choosing
+#       (sel = "same" | "now" | "older", see NtWriter.write)
+#   ["ntt", key]               an independent subscriber looks at the topic's timestamp
+#   ["clsset", k, member]      `Cls_k.attr = tunable(..)` / `= <plain value>` executed between two setups
+#   case["lazy"] = True + ["new", i]: instance i is constructed by that op (absent: all instances are
+#       constructed up front, in order); constructing an instance of a StateMachine class (case["sm"])
+#       assigns cls.state_names / cls.state_descriptions anew
+def is_env(case):
+    return bool(case.get("clock") or case.get("lazy") or any(x is not None for x in (case.get("sm") or []))
+                or any(op[0] in ("tick", "ntt", "clsset", "new") or (op[0] == "ntw" and len(op) > 4) for op in case["ops"]))
+
+
+def annotate(case):
+    """Walks the history.  Returns (info, valid): info[n] for op n =
+         setup  -> {"decls": the tunables the class has at that moment}
+         pyr/pyw -> {"state": "live" | "unbound" | "stale" | "nodecl", "decl": the tunable as it was when the instance was set up}
+       "live": the instance is set up and the class still binds the name to the object it was set up with;
+       "unbound": the instance is not set up (or the name is private): the property leaves it open, the model
+       says AttributeError/KeyError; "stale": the class attribute was assigned after the instance was set up
+       (the instance holds no entry for the new object) -- the property speaks of tunables "after the owner is
+       set up": masked on both sides.
+       valid = every instance is constructed before it is used."""
+    ncls = len(case["classes"])
+    cur = [{d["attr"]: d for d in case["classes"][k]} for k in range(ncls)]
+    ver = [dict() for _ in range(ncls)]
+    constructed = set()
+    bound = {}
+    valid = True
+
+    def construct(i):
+        constructed.add(i)
+        k = case["insts"][i]
+        if case_sm(case, k) is not None:
+            for a in ("state_names", "state_descriptions"):
+                ver[k][a] = ver[k].get(a, 0) + 1
+
+    if not case.get("lazy"):
+        for i in range(len(case["insts"])):
+            construct(i)
+    info = []
+    for op in case["ops"]:
+        inf = {}
+        if op[0] == "new":
+            if op[1] in constructed:
+                valid = False
+            construct(op[1])
+        elif op[0] == "clsset":
+            k, m = op[1], op[2]
+            ver[k][m["attr"]] = ver[k].get(m["attr"], 0) + 1
+            if is_plain(m):
+                cur[k].pop(m["attr"], None)
+            else:
+                cur[k][m["attr"]] = m
+        elif op[0] in ("setup", "pyr", "pyw", "truth"):
+            i = op[1]
+            k = case["insts"][i]
+            if i not in constructed:
+                valid = False
+            if op[0] == "setup":
+                inf["decls"] = sorted(cur[k].values(), key=lambda d: d["attr"])
+                bound[i] = {a: (d, ver[k].get(a, 0)) for a, d in cur[k].items() if not a.startswith("_")}
+            elif op[0] in ("pyr", "pyw"):
+                a = op[2]
+                if i not in bound or a.startswith("_"):
+                    inf["state"] = "unbound"
+                    if i in bound and ver[k].get(a, 0) != 0 and a not in bound[i]:
+                        inf["state"] = "stale"       # (a private name assigned later: nothing to say either)
+                else:
+                    e = bound[i].get(a)
+                    if e is not None and a in cur[k] and ver[k].get(a, 0) == e[1]:
+                        inf["state"], inf["decl"] = "live", e[0]
+                    elif e is None and ver[k].get(a, 0) == 0:
+                        inf["state"] = "nodecl"      # never a tunable of the class: AttributeError
+                    else:
+                        inf["state"] = "stale"
+        info.append(inf)
+    return info, valid
 
 
 def refresh_case(case):
@@ -1278,21 +1461,65 @@ def truth_states(case):
 
 def exec_case(mt, case):
     """run the history against the implementation; returns one observation per op."""
+    paused = case.get("clock") == "paused"
+    if paused:
+        import hal.simulation
+        init_clock()
+        hal.simulation.pauseTiming()
+    try:
+        return exec_case_clocked(mt, case, paused)
+    finally:
+        if paused:
+            hal.simulation.resumeTiming()
+
+
+def exec_case_clocked(mt, case, paused):
     keep = []                                       # keeps every entry / publisher alive
     writer = NtWriter()
     keep.append(writer)
     pool = {}                                       # the shared tunable objects of this history
+    info, valid = annotate(case)
+    if not valid:
+        return [["bad", "harness: an instance is used before it is constructed"]] * len(case["ops"])
     try:
-        clss = [make_class(mt, ds, "Cls%d" % k, case["split"][k], case_src(case, k), case_tkind(case, k), case_hier(case, k), pool)
+        clss = [make_class(mt, ds, "Cls%d" % k, case["split"][k], case_src(case, k), case_tkind(case, k), case_hier(case, k), pool,
+                           case_sm(case, k))
                 for k, ds in enumerate(case["classes"])]
     except Exception as e:
         return [["classraise", type(e).__name__, str(e)[:120]]] * len(case["ops"])
-    objs = [clss[c]() for c in case["insts"]]
+    base = nt_now() if paused else None             # timestamps are recorded relative to the start
+    try:
+        objs = [None if case.get("lazy") else clss[c]() for c in case["insts"]]
+    except Exception as e:
+        return [["bad", "constructing an instance raised %s: %s" % (type(e).__name__, str(e)[:80])]] * len(case["ops"])
     isbound = set()
-    kinds = [{d["attr"]: d["kind"] for d in case["classes"][c]} for c in case["insts"]]
     obs = []
-    for op in case["ops"]:
+    for n, op in enumerate(case["ops"]):
         try:
+            if op[0] == "new":
+                objs[op[1]] = clss[case["insts"][op[1]]]()
+                obs.append(["done"])
+                continue
+            if op[0] == "tick":
+                if paused:
+                    import hal.simulation
+                    hal.simulation.stepTiming(int(op[1]))
+                obs.append(["done"])
+                continue
+            if op[0] == "ntt":
+                t = nt_stamp(op[1])
+                obs.append(["stamp", 0 if t == 0 else t - base + CLOCK0] if paused else ["any"])
+                continue
+            if op[0] == "clsset":
+                m = op[2]
+                if is_plain(m):
+                    setattr(clss[op[1]], m["attr"], to_py(m["plain"]))
+                elif m.get("hint") is not None:
+                    setattr(clss[op[1]], m["attr"], mt.tunable[hint_to_py(m["hint"], m.get("flavor", 0))](to_py(m["default"]), **tunable_kwargs(m)))
+                else:
+                    setattr(clss[op[1]], m["attr"], mt.tunable(to_py(m["default"]), **tunable_kwargs(m)))
+                obs.append(["done"])
+                continue
             if op[0] == "truth":
                 # no library call: the owner's own state changes (an ordinary class has none)
                 tk = inst_tkind(case, op[1])
@@ -1303,8 +1530,9 @@ def exec_case(mt, case):
                 else:
                     obs.append(["bad", "harness: bool(owner) did not follow its state"])
                 continue
-            if op[0] in ("pyw", "pyr") and (op[1] not in isbound or op[2].startswith("_")):
-                # not a bound tunable: the property leaves the behaviour open -> masked
+            if op[0] in ("pyw", "pyr") and info[n]["state"] in ("unbound", "stale"):
+                # not a bound tunable (instance not set up, private name, or the class attribute was
+                # assigned after the instance was set up): the property leaves the behaviour open -> masked
                 try:
                     if op[0] == "pyw":
                         setattr(objs[op[1]], op[2], to_py(op[3]))
@@ -1337,23 +1565,27 @@ def exec_case(mt, case):
                 except (AttributeError, KeyError) as e:
                     obs.append(["err", type(e).__name__])
                     continue
-                k = kinds[op[1]].get(op[2])
+                d = info[n].get("decl")
                 if isinstance(v, mt.tunable):
                     obs.append(["self"])                          # the descriptor object came back
                     continue
                 try:
-                    obs.append(["val", from_py(v, k[0], k[1])])
-                except ValueError:
+                    obs.append(["val", from_py(v, d["kind"][0], d["kind"][1])])
+                except (ValueError, TypeError):
                     obs.append(["bad", repr(v)])
             elif op[0] == "ntw":
-                writer.write(op[1], op[2], op[3])
-                obs.append(["wrote"])
+                sent = writer.write(op[1], op[2], op[3], op[4] if len(op) > 4 else None)
+                obs.append(["wrote"] if sent else ["skipped"])
             elif op[0] == "ntr":
                 obs.append(["nt", nt_read(op[1])])
         except Exception as e:                      # anything unexpected is an observation too
             obs.append(["bad", "%s: %s" % (type(e).__name__, str(e)[:80])])
     keep.append(objs)
+    keep.append(clss)
     return obs
+
+
+CLOCK0 = 1000                                       # the model's clock at the start of a history
 
 
 def obs_to_coq(o):
